@@ -1,0 +1,10 @@
+//go:build verif
+
+package security
+
+import "sync/atomic"
+
+// VerifResetSessionCounter resets the process-global session counter so that a
+// simulated run produces the same session ids in a batch and in a fresh-process
+// replay. Compiled only with the "verif" build tag.
+func VerifResetSessionCounter() { atomic.StoreUint64(&sessionCounter, 0) }
